@@ -328,6 +328,8 @@ def build(run):
         pl.insert_at(r'(self\s*\.\s*)?mut_cur_block_codeobj\(\)\s*\.\s*lnotab\s*\.push\(', "                let ghost verif_t%d = self.cur().codeobj.lnotab@;" % k, where='before', occurrence=k)
     unit.add(pl)
     run.sample({"function": "PyCodeGenerator::push_lnotab", "ensures": "sum of appended sdeltas == lasti - prev_lasti, sum of appended ldeltas == line - prev_lineno, table stays even-length with ldelta <= 127; terminates"})
+    from units.C14 import emitters
+    emitters.add_emitters(run, unit, src, common, PRE, FRAME)
     unit.raw("}\n} // verus!\n")
     return unit
 
